@@ -378,7 +378,7 @@ def run(tier: str, seed: int) -> Result:
                 w.close()
         # backpressure: the socket cannot take (all of) the bytes, asyncio queues what it was handed and flushes it later
         for noise in (False, True):
-            for mode in ("blocked", "partial-1", "partial-9", "blocked-after-first", "flood"):
+            for mode in ("blocked", "partial-1", "partial-9", "blocked-after-first", "flood", "flood-raced:timer", "flood-raced:soon", "flood-raced:reply"):
                 w = ConnWorld(noise=noise)
                 try:
                     w.connect_fully()
@@ -387,12 +387,18 @@ def run(tier: str, seed: int) -> Result:
                     f0 = len(w.sent_frames())
                     batches = [(pb.PingRequest(),), (pbgen.populate(pb.LightCommandRequest(), 3), pb.SubscribeStatesRequest()),
                                (pbgen.populate(pb.BluetoothGATTWriteRequest(), 5),), (pb.DeviceInfoRequest(), pb.ListEntitiesRequest(), pb.PingRequest())]
-                    if mode == "flood":
+                    raced: Any = None
+                    if mode.startswith("flood"):
                         # the device stops reading and more than the transport's high-water mark (64 KiB) is queued: asyncio tells the
                         # protocol to pause writing; what is sent meanwhile still reaches the device, once, in order
                         sock.writable = False
                         big = pb.BluetoothGATTWriteRequest(address=1, handle=2, data=bytes(30000))
                         batches = [(big,), (big,), (big,)] + batches + [(big,), (pb.PingRequest(),)]
+                        if mode.startswith("flood-raced"):
+                            # ... and one more batch is sent in the very loop turn in which the socket drains and asyncio tells the protocol
+                            # to resume: from a timer that is due in that turn, from a callback queued before it, or as the reply to a device
+                            # request read in that turn.  It was handed over last, so it reaches the device last.
+                            raced = (pb.SwitchCommandRequest(key=77, state=True),)
                     if mode == "blocked":
                         sock.writable = False
                     elif mode.startswith("partial"):
@@ -405,12 +411,25 @@ def run(tier: str, seed: int) -> Result:
                             w.conn.send_messages(b)
                             c.evals += 1
                         sock.writable = True
+                        extra: list[Any] = []
+                        if raced is not None:
+                            how = mode.split(":")[1]
+                            if how == "timer":
+                                w.loop.call_later(0, w.conn.send_messages, raced)
+                                extra = [raced]
+                            elif how == "soon":
+                                w.loop.call_soon(w.conn.send_messages, raced)
+                                extra = [raced]
+                            else:
+                                w.io_chunk(sock, w.dframe(pb.PingRequest()))
+                                extra = [(pb.PingResponse(),)]
+                            c.evals += 1
                         w.drain()
                         frames = w.sent_frames()[f0:]
                     except Exception as e:  # noqa: BLE001
                         res.add(key, f"sending while the socket was {mode}: {type(e).__name__}: {e}", {})
                         continue
-                    want = [(n2i[type(m).__name__], m.SerializeToString()) for b in batches for m in b]
+                    want = [(n2i[type(m).__name__], m.SerializeToString()) for b in batches + extra for m in b]
                     if frames != want:
                         res.add(key, f"batches sent while the socket was {mode}: the bytes that finally reached the device decode to "
                                 f"{[(t, len(p)) for t, p in frames]}, expected {[(t, len(p)) for t, p in want]}", {})
@@ -418,6 +437,54 @@ def run(tier: str, seed: int) -> Result:
                         c.distinct.add(key)
                 finally:
                     w.close()
+        # the transport refuses one write (whatever class it uses for that): the frames that do reach the device are whole batches, in
+        # order, and - for Noise - encrypted under consecutive nonces (the reference responder decrypts with its own counter)
+        from aioesphomeapi.core import APIConnectionError as _ACE
+
+        for noise in (False, True):
+            for exc in (BlockingIOError(11, "Resource temporarily unavailable"), InterruptedError(4, "Interrupted system call"),
+                        BrokenPipeError(32, "Broken pipe"), RuntimeError("the handler is closed"), TimeoutError(110, "Connection timed out")):
+                for fault_at in (0, 1, 2):
+                    key = f"conn:{'noise' if noise else 'plain'}:write-refused:{type(exc).__name__}:batch{fault_at}"
+                    w = ConnWorld(noise=noise)
+                    try:
+                        w.connect_fully()
+                        f0 = len(w.sent_frames())
+                        batches = [(pb.PingRequest(),), (pb.SwitchCommandRequest(key=1, state=True), pb.SubscribeStatesRequest()),
+                                   (pb.DeviceInfoRequest(),), (pb.ListEntitiesRequest(), pb.PingRequest())]
+                        bad = None
+                        for i, b in enumerate(batches):
+                            if i == fault_at:
+                                w.write_fault = exc
+                            try:
+                                w.conn.send_messages(b)
+                            except _ACE:
+                                pass
+                            except Exception as e:  # noqa: BLE001
+                                bad = f"send_messages raised {type(e).__name__}: {e}"
+                                break
+                            c.evals += 1
+                            w.drain()
+                        if bad is None:
+                            try:
+                                frames = w.sent_frames()[f0:]
+                            except Exception as e:  # noqa: BLE001
+                                bad = f"what reached the device cannot be read back as consecutive frames ({type(e).__name__})"
+                        if bad is None:
+                            # greedy match: whole batches, in order
+                            rest = list(frames)
+                            for b in batches:
+                                enc = [(n2i[type(m).__name__], m.SerializeToString()) for m in b]
+                                if rest[: len(enc)] == enc:
+                                    rest = rest[len(enc):]
+                            if rest and [x for x in rest if x[0] != n2i["DisconnectRequest"]]:
+                                bad = f"the device received {[(t, len(p)) for t, p in frames]}, which is not a sequence of whole batches in order"
+                        if bad:
+                            res.add(key, f"one write refused with {type(exc).__name__} (batch {fault_at}): {bad}", {})
+                        else:
+                            c.distinct.add(key)
+                    finally:
+                        w.close()
     finally:
         loop.uninstall()
     if not res.violations and (c.evals < 50000 or nonce_reached < 65600):
